@@ -1347,14 +1347,19 @@ def macro_from_definition_string(string):
     Construct a Macro or MacroFunction by parsing a string of the form
     MACRO=expansion.
     """
-    tokens = Lexer(string).tokenize()
+    # The expansion is everything after the first "=". The "=" is blanked
+    # out before lexing, so that an expansion that itself starts with "="
+    # (MACRO===) is not lexed as "==", and token columns are unchanged.
+    head, separator, value = string.partition("=")
+    tokens = Lexer(head + " " + value).tokenize()
+    head_length = len(Lexer(head).tokenize())
     parser = DirectiveParser(tokens)
 
     (identifier, args) = parser.macro_definition()
+    if parser.pos != head_length:
+        raise ParseError("Expected = after the macro name.")
 
-    # Any remaining tokens after an "=" are the macro expansion
-    if not parser.eol():
-        parser.match_value(Operator, "=")
+    if separator:
         expansion = parser.tokens[parser.pos :]
         parser.pos = len(parser.tokens)
     else:
